@@ -14,8 +14,23 @@ def Dir.ctlDef : Dir → Bool
   | .def_ _ _ => true
   | d => d.ctl
 
+/-- pairs of (directive tail, sub-stream) that render alike: what `attach` leaves of
+    `py:replace` and of `py:content` + `py:strip` -/
+inductive BasePair : List Dir × List CEv → List Dir × List CEv → Prop
+  | repl (x : XExpr) (t : Name) (a : List (Name × Str)) :
+      BasePair ([], [.xexpr x]) ([.strip none], [.start t a, .xexpr x, .end_ t])
+  | unrepl (x : XExpr) (t : Name) (a : List (Name × Str)) :
+      BasePair ([.strip none], [.start t a, .xexpr x, .end_ t]) ([], [.xexpr x])
+
+theorem BasePair.symm {a b} (h : BasePair a b) : BasePair b a := by
+  cases h with
+  | repl x t a => exact BasePair.unrepl x t a
+  | unrepl x t a => exact BasePair.repl x t a
+
 inductive MRel : Macro → Macro → Prop
   | refl (m : Macro) : MRel m m
+  | tail (ps : List Name) (pre : List Dir) (T1 T2 : List Dir × List CEv) :
+      (∀ d ∈ pre, d.ctlDef = true) → BasePair T1 T2 → MRel ⟨ps, pre ++ T1.1, T1.2⟩ ⟨ps, pre ++ T2.1, T2.2⟩
   | nest (ps : List Name) (pre stay : List Dir) (body : List CEv) :
       (∀ d ∈ pre, d.ctlDef = true) → MRel ⟨ps, pre ++ stay, body⟩ ⟨ps, [], nestSubs pre stay body⟩
   | unnest (ps : List Name) (pre stay : List Dir) (body : List CEv) :
@@ -24,6 +39,7 @@ inductive MRel : Macro → Macro → Prop
 theorem MRel.symm {a b : Macro} (h : MRel a b) : MRel b a := by
   cases h with
   | refl => exact MRel.refl _
+  | tail ps pre T1 T2 hp hb => exact MRel.tail ps pre T2 T1 hp hb.symm
   | nest ps pre stay body hp => exact MRel.unnest ps pre stay body hp
   | unnest ps pre stay body hp => exact MRel.nest ps pre stay body hp
 
@@ -140,6 +156,24 @@ def NProp' (n : Nat) : Prop :=
     (∀ d ∈ pre, d.ctlDef = true) → run n (.flat (nestSubs pre stay body)) st = .ok (o, s1) → StRel st st' →
     ∃ s1', IOk (.apply (pre ++ stay) body) st' o s1' ∧ StRel s1 s1'
 
+/-- same control prefix, base-equivalent tails -/
+def GProp (n : Nat) : Prop :=
+  ∀ (pre : List Dir) (T1 T2 : List Dir × List CEv) (st st' : St) (o : List Event) (s1 : St),
+    (∀ d ∈ pre, d.ctlDef = true) → BasePair T1 T2 → run n (.apply (pre ++ T1.1) T1.2) st = .ok (o, s1) →
+    StRel st st' → ∃ s1', IOk (.apply (pre ++ T2.1) T2.2) st' o s1' ∧ StRel s1 s1'
+
+def GLProp (n : Nat) : Prop :=
+  ∀ (pre : List Dir) (T1 T2 : List Dir × List CEv) (v : Name) (items : List Val) (st st' : St)
+    (o : List Event) (s1 : St), (∀ d ∈ pre, d.ctlDef = true) → BasePair T1 T2 →
+    run n (.loop v items (pre ++ T1.1) T1.2) st = .ok (o, s1) →
+    StRel st st' → ∃ s1', IOk (.loop v items (pre ++ T2.1) T2.2) st' o s1' ∧ StRel s1 s1'
+
+def GBProp (n : Nat) : Prop :=
+  ∀ (pre : List Dir) (T1 T2 : List Dir × List CEv) (bs : List (Name × Expr)) (st st' : St)
+    (o : List Event) (s1 : St), (∀ d ∈ pre, d.ctlDef = true) → BasePair T1 T2 →
+    run n (.binds bs (pre ++ T1.1) T1.2) st = .ok (o, s1) →
+    StRel st st' → ∃ s1', IOk (.binds bs (pre ++ T2.1) T2.2) st' o s1' ∧ StRel s1 s1'
+
 theorem run_pos' {m : Nat} {t : ITask} {st : St} {r : List Event × St} (h : run m t st = .ok r) :
     ∃ k, m = k + 1 := by
   cases m with
@@ -147,7 +181,7 @@ theorem run_pos' {m : Nat} {t : ITask} {st : St} {r : List Event × St} (h : run
   | succ k => exact ⟨k, rfl⟩
 
 theorem param_step (n : Nat) (hP : ∀ k, k < n → PProp k) (hN : ∀ k, k < n → NProp k)
-    (hN' : ∀ k, k < n → NProp' k) : PProp n := by
+    (hN' : ∀ k, k < n → NProp' k) (hG : ∀ k, k < n → GProp k) : PProp n := by
   intro T st st' o s1 h hr
   obtain ⟨k, rfl⟩ := run_pos' h
   have hk : k < k + 1 := Nat.lt_succ_self k
@@ -194,6 +228,7 @@ theorem param_step (n : Nat) (hP : ∀ k, k < n → PProp k) (hN : ∀ k, k < n 
         have key : ∃ s2', IOk (.apply mc'.dirs mc'.body) (st'.push scope) o s2' ∧ StRel s2 s2' := by
           cases hrel with
           | refl => exact hP k hk _ _ _ _ _ h2 hpush
+          | tail ps pre T1 T2 hp hb => exact hG k hk pre T1 T2 _ _ _ _ hp hb h2 hpush
           | nest ps pre stay body hp =>
             obtain ⟨s2', r, g⟩ := hN k hk pre stay body _ _ _ _ hp h2 hpush
             exact ⟨s2', IOk.apply_nil r, g⟩
@@ -670,45 +705,212 @@ theorem unnestB_step (n : Nat) (hN' : ∀ k, k < n → NProp' k) (hNB' : ∀ k, 
     obtain ⟨s1', r, g⟩ := hNB' k hk pre stay body bs _ _ _ _ hp h2 (hr.setTop x v)
     exact ⟨s1', IOk.binds_cons_iff.2 ⟨v, hv, r⟩, g⟩
 
-/-- all seven statements, by one strong induction on the fuel -/
-theorem param_all : ∀ n, PProp n ∧ NProp n ∧ NLProp n ∧ NBProp n ∧ NProp' n ∧ NLProp' n ∧ NBProp' n := by
+/-- the base pairs themselves -/
+theorem base_step (n : Nat) (hP : ∀ k, k < n → PProp k) (T1 T2 : List Dir × List CEv) (hb : BasePair T1 T2)
+    (st st' : St) (o : List Event) (s1 : St) (h : run n (.apply T1.1 T1.2) st = .ok (o, s1))
+    (hr : StRel st st') : ∃ s1', IOk (.apply T2.1 T2.2) st' o s1' ∧ StRel s1 s1' := by
+  obtain ⟨k, rfl⟩ := run_pos' h
+  cases hb with
+  | repl x t a =>
+    simp only [run] at h
+    obtain ⟨s1', r, g⟩ := hP k (Nat.lt_succ_self k) _ _ _ _ _ h hr
+    exact ⟨s1', (replace_tail_eq x t a st' o s1').1 (IOk.apply_nil r), g⟩
+  | unrepl x t a =>
+    simp only [run, stripBody, stripCond, bind, Except.bind, pure, Except.pure, if_true, List.dropLast] at h
+    obtain ⟨s1', r, g⟩ := hP k (Nat.lt_succ_self k) _ _ _ _ _ h hr
+    exact ⟨s1', IOk.apply_nil r, g⟩
+
+theorem g_step (n : Nat) (hP : ∀ k, k < n → PProp k) (hG : ∀ k, k < n → GProp k)
+    (hGL : ∀ k, k < n → GLProp k) (hGB : ∀ k, k < n → GBProp k) : GProp n := by
+  intro pre T1 T2 st st' o s1 hp hb h hr
+  cases pre with
+  | nil => exact base_step n hP T1 T2 hb st st' o s1 (by simpa using h) hr
+  | cons d pre =>
+    have hd := hp d (List.mem_cons_self ..)
+    have hp' : ∀ x ∈ pre, x.ctlDef = true := fun x hx => hp x (List.mem_cons_of_mem _ hx)
+    obtain ⟨k, rfl⟩ := run_pos' h
+    have hk : k < k + 1 := Nat.lt_succ_self k
+    have hlook := hr.look
+    simp only [List.cons_append] at h ⊢
+    cases d with
+    | def_ name params =>
+      simp only [run, Except.ok.injEq, Prod.mk.injEq] at h
+      obtain ⟨rfl, rfl⟩ := h
+      exact ⟨_, IOk.def_ name params _ _ st', hr.define name (MRel.tail params pre T1 T2 hp' hb)⟩
+    | when e0 =>
+      simp only [run] at h
+      split at h
+      · simp at h
+      · rename_i c cs hc
+        have hc' : st'.choice = c :: cs := by rw [hr.choice]; exact hc
+        cases hm : c.matched with
+        | true =>
+          simp only [hm, if_true, Except.ok.injEq, Prod.mk.injEq] at h
+          obtain ⟨rfl, rfl⟩ := h
+          exact ⟨st', IOk.when_iff.2 ⟨c, cs, hc', Or.inl ⟨hm, rfl, rfl⟩⟩, hr⟩
+        | false =>
+          simp only [hm, Bool.false_eq_true, if_false] at h
+          split at h
+          · simp at h
+          · simp only [bind_ok] at h
+            obtain ⟨mm, hmm, h2⟩ := h
+            rw [← hlook] at hmm
+            cases mm with
+            | true =>
+              simp only [if_true] at h2
+              obtain ⟨s1', r, g⟩ := hG k hk pre T1 T2 _ _ _ _ hp' hb h2 (hr.setMatched c cs true)
+              exact ⟨s1', IOk.when_iff.2 ⟨c, cs, hc', Or.inr ⟨hm, true, hmm, Or.inl ⟨rfl, r⟩⟩⟩, g⟩
+            | false =>
+              simp only [Bool.false_eq_true, if_false, pure, Except.pure, Except.ok.injEq, Prod.mk.injEq] at h2
+              obtain ⟨rfl, rfl⟩ := h2
+              exact ⟨_, IOk.when_iff.2 ⟨c, cs, hc', Or.inr ⟨hm, false, hmm, Or.inr ⟨rfl, rfl, rfl⟩⟩⟩,
+                hr.setMatched c cs false⟩
+    | otherwise =>
+      simp only [run] at h
+      split at h
+      · simp at h
+      · rename_i c cs hc
+        have hc' : st'.choice = c :: cs := by rw [hr.choice]; exact hc
+        cases hm : c.matched with
+        | true =>
+          simp only [hm, if_true, Except.ok.injEq, Prod.mk.injEq] at h
+          obtain ⟨rfl, rfl⟩ := h
+          exact ⟨st', IOk.otherwise_iff.2 ⟨c, cs, hc', Or.inl ⟨hm, rfl, rfl⟩⟩, hr⟩
+        | false =>
+          simp only [hm, Bool.false_eq_true, if_false] at h
+          obtain ⟨s1', r, g⟩ := hG k hk pre T1 T2 _ _ _ _ hp' hb h (hr.setMatched c cs true)
+          exact ⟨s1', IOk.otherwise_iff.2 ⟨c, cs, hc', Or.inr ⟨hm, r⟩⟩, g⟩
+    | for_ v e0 =>
+      simp only [run, bind_ok] at h
+      obtain ⟨it, hit, items, hitems, h2⟩ := h
+      rw [← hlook] at hit
+      obtain ⟨s1', r, g⟩ := hGL k hk pre T1 T2 v items _ _ _ _ hp' hb h2 hr
+      exact ⟨s1', IOk.for_iff.2 ⟨it, items, hit, hitems, r⟩, g⟩
+    | if_ e0 =>
+      simp only [run, bind_ok] at h
+      obtain ⟨v, hv, h2⟩ := h
+      rw [← hlook] at hv
+      cases ht : v.truthy with
+      | true =>
+        simp only [ht, if_true] at h2
+        obtain ⟨s1', r, g⟩ := hG k hk pre T1 T2 _ _ _ _ hp' hb h2 hr
+        exact ⟨s1', IOk.if_iff.2 ⟨v, hv, Or.inl ⟨ht, r⟩⟩, g⟩
+      | false =>
+        simp only [ht, Bool.false_eq_true, if_false, pure, Except.pure, Except.ok.injEq, Prod.mk.injEq] at h2
+        obtain ⟨rfl, rfl⟩ := h2
+        exact ⟨st', IOk.if_iff.2 ⟨v, hv, Or.inr ⟨ht, rfl, rfl⟩⟩, hr⟩
+    | choose e0 =>
+      simp only [run, bind_ok, mapSt_ok] at h
+      obtain ⟨v, hv, s2, h2, rfl⟩ := h
+      rw [← hlook] at hv
+      obtain ⟨s2', r, g⟩ := hG k hk pre T1 T2 _ _ _ _ hp' hb h2 (hr.pushChoice ⟨false, e0.isSome, v⟩)
+      exact ⟨s2'.popChoice, IOk.choose_iff.2 ⟨v, s2', hv, r, rfl⟩, g.popChoice⟩
+    | with_ bs =>
+      simp only [run, mapSt_ok] at h
+      obtain ⟨s2, h2, rfl⟩ := h
+      obtain ⟨s2', r, g⟩ := hGB k hk pre T1 T2 bs _ _ _ _ hp' hb h2 (hr.push [])
+      exact ⟨s2'.pop, IOk.with_iff.2 ⟨s2', r, rfl⟩, g.pop⟩
+    | replace x => simp [Dir.ctlDef, Dir.ctl] at hd
+    | content x => simp [Dir.ctlDef, Dir.ctl] at hd
+    | attrs e0 => simp [Dir.ctlDef, Dir.ctl] at hd
+    | strip c => simp [Dir.ctlDef, Dir.ctl] at hd
+
+theorem gL_step (n : Nat) (hG : ∀ k, k < n → GProp k) (hGL : ∀ k, k < n → GLProp k) : GLProp n := by
+  intro pre T1 T2 v items st st' o s1 hp hb h hr
+  obtain ⟨k, rfl⟩ := run_pos' h
+  have hk : k < k + 1 := Nat.lt_succ_self k
+  cases items with
+  | nil =>
+    simp only [run, Except.ok.injEq, Prod.mk.injEq] at h
+    obtain ⟨rfl, rfl⟩ := h
+    exact ⟨st', IOk.loop_nil_iff.2 ⟨rfl, rfl⟩, hr⟩
+  | cons item items =>
+    simp only [run, seq_ok] at h
+    obtain ⟨o1, t1, o2, h1, h2, rfl⟩ := h
+    obtain ⟨t1', r1, g1⟩ := hG k hk pre T1 T2 _ _ _ _ hp hb h1 (hr.push [(v, item)])
+    obtain ⟨s1', r2, g2⟩ := hGL k hk pre T1 T2 v items _ _ _ _ hp hb h2 g1.pop
+    exact ⟨s1', IOk.loop_cons_iff.2 ⟨o1, t1', o2, r1, r2, rfl⟩, g2⟩
+
+theorem gB_step (n : Nat) (hG : ∀ k, k < n → GProp k) (hGB : ∀ k, k < n → GBProp k) : GBProp n := by
+  intro pre T1 T2 bs st st' o s1 hp hb h hr
+  obtain ⟨k, rfl⟩ := run_pos' h
+  have hk : k < k + 1 := Nat.lt_succ_self k
+  cases bs with
+  | nil =>
+    simp only [run] at h
+    obtain ⟨s1', r, g⟩ := hG k hk pre T1 T2 _ _ _ _ hp hb h hr
+    exact ⟨s1', IOk.binds_nil_iff.2 r, g⟩
+  | cons p bs =>
+    obtain ⟨x, e0⟩ := p
+    simp only [run, bind_ok] at h
+    obtain ⟨v, hv, h2⟩ := h
+    rw [← hr.look] at hv
+    obtain ⟨s1', r, g⟩ := hGB k hk pre T1 T2 bs _ _ _ _ hp hb h2 (hr.setTop x v)
+    exact ⟨s1', IOk.binds_cons_iff.2 ⟨v, hv, r⟩, g⟩
+
+structure AllProps (n : Nat) : Prop where
+  p : PProp n
+  n1 : NProp n
+  nl : NLProp n
+  nb : NBProp n
+  n1' : NProp' n
+  nl' : NLProp' n
+  nb' : NBProp' n
+  g : GProp n
+  gl : GLProp n
+  gb : GBProp n
+
+/-- all ten statements, by one strong induction on the fuel -/
+theorem param_all : ∀ n, AllProps n := by
   intro n
   induction n using Nat.strongRecOn with
   | ind n ih =>
-    have hP : PProp n := param_step n (fun k hk => (ih k hk).1) (fun k hk => (ih k hk).2.1)
-      (fun k hk => (ih k hk).2.2.2.2.1)
+    have hP : PProp n := param_step n (fun k hk => (ih k hk).p) (fun k hk => (ih k hk).n1)
+      (fun k hk => (ih k hk).n1') (fun k hk => (ih k hk).g)
     have hPle : ∀ k, k ≤ n → PProp k := by
       intro k hk
       rcases Nat.lt_or_eq_of_le hk with h | rfl
-      · exact (ih k h).1
+      · exact (ih k h).p
       · exact hP
-    exact ⟨hP,
-      nest_step n hP (fun k hk => (ih k hk).2.1) (fun k hk => (ih k hk).2.2.1) (fun k hk => (ih k hk).2.2.2.1),
-      nestL_step n (fun k hk => (ih k hk).2.1) (fun k hk => (ih k hk).2.2.1),
-      nestB_step n (fun k hk => (ih k hk).2.1) (fun k hk => (ih k hk).2.2.2.1),
-      unnest_step n hPle (fun k hk => (ih k hk).2.2.2.2.1) (fun k hk => (ih k hk).2.2.2.2.2.1)
-        (fun k hk => (ih k hk).2.2.2.2.2.2),
-      unnestL_step n (fun k hk => (ih k hk).2.2.2.2.1) (fun k hk => (ih k hk).2.2.2.2.2.1),
-      unnestB_step n (fun k hk => (ih k hk).2.2.2.2.1) (fun k hk => (ih k hk).2.2.2.2.2.2)⟩
+    exact {
+      p := hP
+      n1 := nest_step n hP (fun k hk => (ih k hk).n1) (fun k hk => (ih k hk).nl) (fun k hk => (ih k hk).nb)
+      nl := nestL_step n (fun k hk => (ih k hk).n1) (fun k hk => (ih k hk).nl)
+      nb := nestB_step n (fun k hk => (ih k hk).n1) (fun k hk => (ih k hk).nb)
+      n1' := unnest_step n hPle (fun k hk => (ih k hk).n1') (fun k hk => (ih k hk).nl')
+        (fun k hk => (ih k hk).nb')
+      nl' := unnestL_step n (fun k hk => (ih k hk).n1') (fun k hk => (ih k hk).nl')
+      nb' := unnestB_step n (fun k hk => (ih k hk).n1') (fun k hk => (ih k hk).nb')
+      g := g_step n (fun k hk => (ih k hk).p) (fun k hk => (ih k hk).g) (fun k hk => (ih k hk).gl)
+        (fun k hk => (ih k hk).gb)
+      gl := gL_step n (fun k hk => (ih k hk).g) (fun k hk => (ih k hk).gl)
+      gb := gB_step n (fun k hk => (ih k hk).g) (fun k hk => (ih k hk).gb) }
 
 /-- **Parametricity.**  Related states (equal up to the stored form of macros) are
     indistinguishable: every task renders the same output from them and ends in related states. -/
 theorem param {T : ITask} {st st' s1 : St} {o : List Event} (h : IOk T st o s1) (hr : StRel st st') :
     ∃ s1', IOk T st' o s1' ∧ StRel s1 s1' := by
   obtain ⟨n, h⟩ := h
-  exact (param_all n).1 T st st' o s1 h hr
+  exact (param_all n).p T st st' o s1 h hr
 
 theorem nest_of_chain {pre stay : List Dir} {body : List CEv} {st st' s1 : St} {o : List Event}
     (hp : ∀ d ∈ pre, d.ctlDef = true) (h : IOk (.apply (pre ++ stay) body) st o s1) (hr : StRel st st') :
     ∃ s1', IOk (.flat (nestSubs pre stay body)) st' o s1' ∧ StRel s1 s1' := by
   obtain ⟨n, h⟩ := h
-  exact (param_all n).2.1 pre stay body st st' o s1 hp h hr
+  exact (param_all n).n1 pre stay body st st' o s1 hp h hr
 
 theorem chain_of_nest {pre stay : List Dir} {body : List CEv} {st st' s1 : St} {o : List Event}
     (hp : ∀ d ∈ pre, d.ctlDef = true) (h : IOk (.flat (nestSubs pre stay body)) st o s1) (hr : StRel st st') :
     ∃ s1', IOk (.apply (pre ++ stay) body) st' o s1' ∧ StRel s1 s1' := by
   obtain ⟨n, h⟩ := h
-  exact (param_all n).2.2.2.2.1 pre stay body st st' o s1 hp h hr
+  exact (param_all n).n1' pre stay body st st' o s1 hp h hr
+
+/-- same control/def prefix, `py:replace` tail vs `py:content` + `py:strip` tail -/
+theorem tail_pair {pre : List Dir} {T1 T2 : List Dir × List CEv} {st st' s1 : St} {o : List Event}
+    (hp : ∀ d ∈ pre, d.ctlDef = true) (hb : BasePair T1 T2) (h : IOk (.apply (pre ++ T1.1) T1.2) st o s1)
+    (hr : StRel st st') : ∃ s1', IOk (.apply (pre ++ T2.1) T2.2) st' o s1' ∧ StRel s1 s1' := by
+  obtain ⟨n, h⟩ := h
+  exact (param_all n).g pre T1 T2 st st' o s1 hp hb h hr
 
 /-! ### node level -/
 
